@@ -17,7 +17,7 @@ env = dict(os.environ); env["TZ"] = "UTC"; env.setdefault("ASAN_OPTIONS", "detec
 print("case:          ", case)
 print("implementation:", vcheck.run_lines(exe, [case], env=env)[0])
 try:
-    print("model:         ", vcheck.run_lines(vcheck.build_driver(pid, log), [case])[0])
+    print("model:         ", vcheck.run_lines(vcheck.build_driver(getattr(plug, 'DRIVER', pid), log), [case])[0])
 except Exception as e:
     print("model: unavailable (%s)" % e)
 if hasattr(plug, "spec_check"):
